@@ -464,6 +464,40 @@ def jcache_config(h, mesh, npts, tind, free=None):
                 h.equal('DF(per-cell points) after shared-point calls == fresh', got[..., 0], ref[..., 0])
 
 
+def facet_args_config(h, mesh, mapkind, free=None, cls=None):
+    """Ways of passing facets and points to the facet map: find=None == find=all facets; a subset in any order == the same columns
+    of the full result; per-facet point arrays (dim-1, nfacets, npts) whose columns agree with the shared points == shared points;
+    straight-sided second-order classes == the affine map of their first-order skeleton."""
+    import skfem as S
+    with warnings.catch_warnings():
+        warnings.simplefilter('ignore')
+        m1 = make_mesh(h, mesh, free=free)
+        m = m1 if cls is None else getattr(S, cls).from_mesh(m1)
+        dim = m.p.shape[0]
+        mp = get_mapping(m, mapkind)
+        nf = m.facets.shape[1]
+        s = h.sym('s', (dim - 1, 2), nominal=np.array([[0.3125, 0.125], [0.21875, 0.5]])[:dim - 1])
+        allf = np.arange(nf).astype(np.int32)
+        sub = np.array([nf - 1, 0, nf // 2], dtype=np.int32)
+        h.sample(dict(mesh=mesh, mapping=mapkind, cls=cls, facets=int(nf)))
+        G0 = np.asarray(mp.G(s))
+        h.concrete('G shape', G0.shape == (dim, nf, 2), str(G0.shape))
+        h.equal('G(find=None) == G(find=all facets)', G0, np.asarray(mp.G(s, find=allf)))
+        h.equal('G(find=subset) == columns of the full result', np.asarray(mp.G(s, find=sub)), G0[:, sub])
+        d0 = np.asarray(mp.detDG(s))
+        h.equal('detDG(find=None) == detDG(find=all facets)', d0, np.asarray(mp.detDG(s, find=allf)))
+        h.equal('detDG(find=subset) == columns of the full result', np.asarray(mp.detDG(s, find=sub)), d0[sub])
+        if mapkind == 'affine':
+            # (the isoparametric class broadcasts shared points only)
+            sp = np.stack([s for _ in range(len(sub))], axis=1)
+            h.equal('G(per-facet points) == G(shared points)', np.asarray(mp.G(sp, find=sub)), G0[:, sub])
+        if cls is not None:
+            ref = get_mapping(m1, 'affine')
+            h.equal('straight second-order class: G == affine map of the first-order skeleton', G0, np.asarray(ref.G(s)))
+            dr = np.asarray(ref.detDG(s))
+            h.equal('straight second-order class: detDG^2 == affine', d0 * d0, dr * dr)
+
+
 def build_configs(tier, seed):
     quick = tier == 'quick'
     cfgs = []
@@ -520,6 +554,10 @@ def build_configs(tier, seed):
         add('facet/quad2/iso/numeric/side=%d' % side, facet_config, mesh='quad2', mapkind='iso', free='none', side=side, numeric_s=True)
         add('facet/quad2mix/iso/numeric/side=%d' % side, facet_config, mesh='quad2mix', mapkind='iso', free='none', side=side, numeric_s=True)
         add('facet/hex2/iso/numeric/side=%d' % side, facet_config, mesh='hex2', mapkind='iso', free='none', side=side, numeric_s=True, timeout=900)
+    # ---- ways of passing facets / points to the facet map ------------------------------------------------------------------------------
+    for mesh, mk, free, cls in [('tri2', 'affine', None, None), ('tri2', 'iso', None, None), ('quad2', 'iso', None, None), ('tet2', 'affine', [4], None),
+                                ('tet2', 'iso', [4], None), ('tri2', 'iso', None, 'MeshTri2'), ('tet2', 'iso', 'none', 'MeshTet2'), ('line3perm', 'affine', None, None)]:
+        add('facet-args/%s/%s%s' % (mesh, mk, '' if cls is None else '/' + cls), facet_args_config, mesh=mesh, mapkind=mk, free=free, cls=cls, timeout=900)
     # ---- curved second-order meshes: vertices and mid-side nodes symbolic ------------------------------------------------------------------
     add('curved/tri2/MeshTri2', curved_config, mesh='tri2', cls='MeshTri2', timeout=900)
     add('curved/quad1/MeshQuad2', curved_config, mesh='quad1', cls='MeshQuad2', timeout=900)
